@@ -57,7 +57,7 @@ ProbeFn(name, param, body) == [name |-> name, param |-> param, body |-> body]
 FileRec(name, imports, decls, fns, body, declsLast) ==
   [name |-> name, imports |-> imports, decls |-> decls, fns |-> fns, body |-> body, declsLast |-> declsLast]
 
-ScopeKinds == {"block", "if", "while", "for", "match"}
+ScopeKinds == {"block", "if", "while", "for", "match", "match2"}
 PatternKinds == {"for", "match"}           \* the binder is a pattern variable guarding the whole body
 
 \* ---------------------------------------------------------------- declarations and file scopes
@@ -198,6 +198,11 @@ Walk1(C, s, st) ==
              [] s.kind = "match" ->
                   LET a == Put(Put(st, "match (" \o Lam(label) \o ") {"), pat \o " -> {")
                   IN Pop(Put(Put(WalkS(C, s.body, Push(a, patScope)), "}"), "}"))
+             \* two arms: the first one (which does not match at run time) binds the name, the body is in the second arm,
+             \* where that binding must not be visible
+             [] s.kind = "match2" ->
+                  LET a == Put(Put(Put(st, "match (0, " \o Lam(label) \o ") {"), "(1, " \o pat \o ") -> { println(\"never\") }"), "(_, _) -> {")
+                  IN Pop(Put(Put(WalkS(C, s.body, Push(a, EmptyScope)), "}"), "}"))
 
 ImportLine(imp) ==
   LET lst == IF Len(imp.names) = 1 THEN imp.names[1] ELSE "(" \o JoinC(imp.names) \o ")"
